@@ -151,8 +151,8 @@ type mpdDoc struct {
 	} `xml:"Period"`
 }
 
-// audioTime is the decode time (48 kHz) of the audio segment that follows a video segment starting at
-// startTicks/ts: the first AAC frame boundary (1024 samples) at or after the video start.
+// audioTime is the decode time (audio timescale) of the audio segment that follows a video segment starting at
+// startTicks/ts: the first audio frame boundary (frame = samples per frame) at or after the video start.
 func audioTime(startTicks, ts, audioTS, frame int64) int64 {
 	num := startTicks * audioTS
 	t := num / ts / frame * frame
@@ -175,7 +175,8 @@ func newestAvail(rt *project.RepTruth, relMS int64) int64 {
 
 // getWD issues the request on its own goroutine and gives up after `timeout`: a request that the server never
 // answers (endless loop in the handler) must not block the driver.  The abandoned goroutine keeps running until
-// the driver exits, so callers stop the scenario after the first unanswered request.
+// the driver exits, so callers stop the scenario after the first unanswered request (it is recorded with status 0
+// and judged like any other answer).
 func getWD(env *tl.Env, u string, timeout time.Duration) (int, bool) {
 	ch := make(chan int, 1)
 	go func() { ch <- env.S.Get(u).Status }()
@@ -600,6 +601,22 @@ func Main(args []string) error {
 	statusJob := func(sc ssc) job {
 		return job{func(idx int, emit func(tr.E)) {
 			a, rt := sc.a, sc.a.Video
+			// the rep filters are written with the ids of the generated / testpic assets; use this asset's own ids
+			pats := make([]pat, len(sc.pats))
+			for j, p := range sc.pats {
+				pats[j] = p
+				pats[j].Reps = nil
+				for _, r := range p.Reps {
+					switch {
+					case r == "V300":
+						r = rt.ID
+					case r == "A48" && a.Audio != nil:
+						r = a.Audio.ID
+					}
+					pats[j].Reps = append(pats[j].Reps, r)
+				}
+			}
+			sc.pats = pats
 			c := tl.Cfg{Mode: sc.mode, SNR: sc.snr, AST: sc.ast, TSBD: -1, Extra: []string{statusPart(sc.pats, sc.esc)}}
 			var hp []map[string]any
 			cmax, cmin := 0, 1<<30
@@ -653,11 +670,12 @@ func Main(args []string) error {
 				}
 				// audio $Time$ requests under start_<t> are refused (410) whatever the fault parameters say: that is the
 				// C04 finding "findRefSegMetaFromTime lacks the start offset", not a matter of C14 - not requested here
-				if a.Audio != nil && !(sc.mode == "time" && sc.ast != 0) {
+				// ($Time$ audio also needs the constant audio frame duration of the asset: 1024 AAC, 1536 AC-3, ...)
+				if a.Audio != nil && !(sc.mode == "time" && (sc.ast != 0 || a.Audio.SampleDur <= 0)) {
 					au := a.Audio
 					var v int64
 					if sc.mode == "time" {
-						v = audioTime(st, rt.TS, au.TS, 1024)
+						v = audioTime(st, rt.TS, au.TS, au.SampleDur)
 					} else {
 						v = n + c.EffSNR()
 					}
@@ -670,27 +688,9 @@ func Main(args []string) error {
 			}
 		}}
 	}
-	// Scenarios with a start time whose window begins at the start of the stream go last: the server has been seen
-	// not to answer such requests at all (calcStatusCode -> findLastSegNr with a stream-relative time).  A canary
-	// scenario on an asset with uniform segment durations runs alone first; if it is not answered, the other
-	// scenarios of the class are skipped (each would leave one more handler spinning in this process).
-	var late []ssc
 	for _, sc := range sscs {
-		if sc.ast != 0 && !sc.far {
-			late = append(late, sc)
-		} else {
-			jobs = append(jobs, statusJob(sc))
-		}
+		jobs = append(jobs, statusJob(sc))
 	}
-	uniform := func(a *tl.Asset) bool {
-		for _, d := range a.Video.Dur {
-			if d != a.Video.Dur[0] {
-				return false
-			}
-		}
-		return true
-	}
-	sort.SliceStable(late, func(i, j int) bool { return uniform(late[i].a) && !uniform(late[j].a) })
 	if len(sscs) > 0 {
 		samples = append(samples, map[string]any{"statuscode": statusPart(sscs[0].pats, false), "asset": sscs[0].a.Name, "mode": sscs[0].mode},
 			map[string]any{"statuscode": statusPart(sscs[len(sscs)/2].pats, false), "asset": sscs[len(sscs)/2].a.Name, "mode": sscs[len(sscs)/2].mode,
@@ -705,19 +705,6 @@ func Main(args []string) error {
 	bufs := runJobs(jobs, 8)
 	<-tdone
 	bufs = append(tbufs, bufs...)
-	skipped := 0
-	if len(late) > 0 {
-		bufs = append(bufs, runJobs([]job{statusJob(late[0])}, 1)...)
-		if len(hung) == 0 {
-			var rest []job
-			for _, sc := range late[1:] {
-				rest = append(rest, statusJob(sc))
-			}
-			bufs = append(bufs, runJobs(rest, 8)...)
-		} else {
-			skipped = len(late) - 1
-		}
-	}
 	runS := time.Since(t0).Seconds()
 	// scenario numbers = position in the trace
 	nsc := 0
@@ -772,7 +759,7 @@ func Main(args []string) error {
 	for k, v := range cnt.byStatus {
 		bs[fmt.Sprint(k)] = v
 	}
-	tr.PrintStats(map[string]any{"scenarios": nsc, "skipped_scenarios": skipped, "unanswered": hung, "status_scenarios": len(sscs), "traffic_scenarios": len(tscs), "events": events,
+	tr.PrintStats(map[string]any{"scenarios": nsc, "unanswered": hung, "status_scenarios": len(sscs), "traffic_scenarios": len(tscs), "events": events,
 		"requests": cnt.requests, "distinct": len(cnt.distinct), "samples": samples, "by_status": bs, "sleeping_requests": cnt.sleepers,
 		"files": files, "run_s": runS})
 	return nil
